@@ -33,6 +33,10 @@ def check(run):
                     1500 if quick else 30000, seed_off=13, bfs=True)
     run.notes['multi_provide_configurations'] = len(multi)
     recs += multi
+    late = ic.emit(run, 'Inject emission (exhaustive, defaulted parameter whose name is provided only deeper / later)',
+                   'Inject_emit_late.cfg', 0, 0, 800 if quick else 20000, seed_off=17, bfs=True)
+    run.notes['late_provide_configurations'] = len(late)
+    recs += late
     opts = {'mode': 'C02', 'kwonly': True, 'posonly': False, 'carriers': True, 'static': True}
     hs = [0, 1, 2, 3] if quick else [0, 1, 2, 3, 4, 5, 6, 7]
     res = ic.replay_records(run, recs, opts, hs, run.seed, 'c02')
